@@ -93,6 +93,8 @@ def r4_member_indexing(run, tree):
         ok = ok and good
     run.ob("core/array.py::Array.__getitem__::index-passed-through", ok, ai.where(),
            "returns %s" % "; ".join(norm(r.value)[:80] for r in rets), "a[idx] selects other rows than ndarray[idx] or loses the unit")
+    from .coretypes import check_array_index_gate
+    check_array_index_gate(run, tree)
     # an Array used as index is replaced by its raw values (bool/int only)
     conv = any(isinstance(n, ast.Assign) and is_name(n.targets[0], pn[1]) and norm(n.value) == "%s.values" % pn[1]
                for n in ast.walk(ai.node))
